@@ -49,6 +49,17 @@ pub struct Session {
     pub held: Vec<UnixStream>,
     pub rng: Rng,
     pub started: Instant,
+    /// crash injection: SIGKILL the plugin right after applying the effect of the k-th
+    /// non-getinfo RPC of this session, before replying
+    pub kill_at_rpc: Option<usize>,
+    pub rpc_count: usize,
+    pub killed: bool,
+    /// scripted pay for the crash sessions: (status to answer, part ends complete?)
+    pub pay_script: Option<(&'static str, bool)>,
+    /// invariant violations observed by the node on its own state (signature, detail)
+    pub node_violations: Vec<(String, String)>,
+    /// called after every node-side effect with (node, event) to evaluate invariants
+    pub hashes: Vec<String>,
 }
 
 static SESSION_COUNTER: std::sync::atomic::AtomicU64 = std::sync::atomic::AtomicU64::new(0);
@@ -171,6 +182,12 @@ impl Session {
             held: vec![],
             rng: Rng::new(n + 1),
             started: Instant::now(),
+            kill_at_rpc: None,
+            rpc_count: 0,
+            killed: false,
+            pay_script: None,
+            node_violations: vec![],
+            hashes: vec![],
         };
         let slow = if valgrind.is_some() { 20 } else { 1 };
         s.send_doc(&json!({"jsonrpc": "2.0", "id": "gm", "method": "getmanifest", "params": {"allow-deprecated-apis": false}}), 0);
@@ -256,20 +273,96 @@ impl Session {
         let params = req.get("params").cloned().unwrap_or(json!({}));
         let id = req.get("id").cloned().unwrap_or(Value::Null);
         self.rpc_log.push(method.clone());
+        if self.killed {
+            return;
+        }
+        if method != "getinfo" {
+            let k = self.rpc_count;
+            self.rpc_count += 1;
+            if method == "pay" {
+                self.check_pay_arrival(&params);
+            }
+            if self.kill_at_rpc == Some(k) {
+                // apply the effect, then crash the plugin before it can see the reply
+                match method.as_str() {
+                    "datastore" => {
+                        let _ = self.node.datastore(&params);
+                    }
+                    "pay" => {
+                        self.pays_seen.push(params.clone());
+                        let hash_hex = invoice_hash_hex(&params);
+                        let pid = self.node.start_pay(0, &params, &hash_hex);
+                        self.node.add_part(pid, 1000);
+                    }
+                    _ => {}
+                }
+                let _ = self.child.kill();
+                let _ = self.child.wait();
+                self.killed = true;
+                self.node.crash();
+                self.check_state("after-kill");
+                return;
+            }
+        }
+        if method == "pay" && self.pay_script.is_some() {
+            let (status, completes) = self.pay_script.unwrap();
+            self.pays_seen.push(params.clone());
+            let hash_hex = invoice_hash_hex(&params);
+            let pid = self.node.start_pay(0, &params, &hash_hex);
+            self.node.add_part(pid, 1000);
+            self.check_state("part-created");
+            let pre = self.preimages.get(&hash_hex).copied();
+            if status != "pending" {
+                if let Some(p) = self.node.parts.last_mut() {
+                    if completes && pre.is_some() {
+                        p.status = PartStatus::Complete;
+                        p.preimage = pre;
+                    } else {
+                        p.status = PartStatus::Failed;
+                        p.fail_code = Some(203);
+                    }
+                }
+            }
+            let pay = self.node.pays.iter().find(|p| p.id == pid).unwrap().clone();
+            self.node.pays.iter_mut().for_each(|p| p.running = false);
+            let done = status == "complete" && completes && pre.is_some();
+            let r = self.node.pay_response(&pay, if done { "complete" } else if status == "complete" { "failed" } else { status }, false, if done { pre } else { None });
+            write_rpc(stream, &id, Ok(r));
+            self.check_state("pay-returned");
+            return;
+        }
         match method.as_str() {
             "getinfo" => write_rpc(stream, &id, self.node.getinfo()),
             "datastore" => {
                 let r = self.node.datastore(&params);
+                self.check_state("datastore");
                 write_rpc(stream, &id, r)
             }
             "listdatastore" => write_rpc(stream, &id, self.node.listdatastore(&params)),
             "listsendpays" => write_rpc(stream, &id, self.node.listsendpays(&params)),
             "waitsendpay" => match self.node.find_part(&params) {
                 None => write_rpc(stream, &id, Err(RpcErr::new(208, "never attempted"))),
-                Some(k) => match self.node.waitsendpay_result(k) {
-                    Some(r) => write_rpc(stream, &id, r),
-                    None => self.held.push(stream),
-                },
+                Some(k) => {
+                    if self.node.waitsendpay_result(k).is_none() {
+                        if let Some((_, completes)) = self.pay_script {
+                            // leftover pending part: it resolves while the plugin waits on it
+                            let hx = self.node.parts[k].hash_hex.clone();
+                            let pre = self.preimages.get(&hx).copied();
+                            if completes && pre.is_some() {
+                                self.node.parts[k].status = PartStatus::Complete;
+                                self.node.parts[k].preimage = pre;
+                            } else {
+                                self.node.parts[k].status = PartStatus::Failed;
+                                self.node.parts[k].fail_code = Some(203);
+                            }
+                            self.check_state("part-resolved");
+                        }
+                    }
+                    match self.node.waitsendpay_result(k) {
+                        Some(r) => write_rpc(stream, &id, r),
+                        None => self.held.push(stream),
+                    }
+                }
             },
             "pay" => {
                 self.pays_seen.push(params.clone());
@@ -374,6 +467,76 @@ impl Session {
         let stderr = self.stderr.lock().unwrap().clone();
         let _ = std::fs::remove_dir_all(&self.dir);
         Finished { exit_code: code, stderr, docs: self.docs.iter().map(|d| d.1.clone()).collect(), bad_docs: self.bad_docs.clone(), trailing: self.out_buf.clone() }
+    }
+}
+
+pub fn invoice_hash_hex(params: &Value) -> String {
+    params.get("bolt11").and_then(|b| b.as_str()).and_then(|b| b.parse::<lightning_invoice::Bolt11Invoice>().ok()).map(|i| hex::encode(AsRef::<[u8]>::as_ref(i.payment_hash()))).unwrap_or_default()
+}
+
+/// What the durable record for `hash_hex` says, read through the plugin's own store.
+pub fn rec_of(node: &Node, hash_hex: &str) -> String {
+    use crate::store::{ClnDatastore, Datastore, PaymentState};
+    use futures::FutureExt;
+    let mut snap = Node::default();
+    for (k, v) in node.ds.iter() {
+        if k.iter().any(|s| s == hash_hex) {
+            snap.ds.insert(k.clone(), v.clone());
+        }
+    }
+    // any invoice with this hash will do: the store only uses the payment hash
+    let mut h = [0u8; 32];
+    if let Ok(b) = hex::decode(hash_hex) {
+        if b.len() == 32 {
+            h.copy_from_slice(&b);
+        }
+    }
+    let mut rng = Rng::new(7);
+    let inv = crate::gen::make_invoice(&crate::gen::InvoiceSpec { payment_hash: h, amount_msat: Some(1000), signer: crate::gen::Signer::Payee, hints: crate::gen::Hints::None, payee_sk: crate::gen::secret_key(&mut rng), other_sk: crate::gen::secret_key(&mut rng), local_pubkey: NODE_ID.parse().unwrap(), salt: 1 });
+    let invoice: lightning_invoice::Bolt11Invoice = inv.bolt11.parse().unwrap();
+    let tramp = crate::messages::TrampolineInfo { bolt11: inv.bolt11.clone(), payee: invoice.get_payee_pub_key(), invoice, amount_msat: 1000, routing_policy: crate::messages::TrampolineRoutingPolicy { fee_base_msat: 0, fee_proportional_millionths: 0, cltv_expiry_delta: 10 } };
+    let rpc = Arc::new(crate::rpc::Rpc::with_transport(Arc::new(crate::world::SnapTransport { node: snap })));
+    match ClnDatastore::new(rpc).fetch_payment_info(&tramp).now_or_never() {
+        Some(Ok(PaymentState::Free)) => "Free".into(),
+        Some(Ok(PaymentState::Pending { .. })) => "Pending".into(),
+        Some(Ok(PaymentState::Succeeded { preimage })) => {
+            if crate::gen::sha256_of(&preimage) == h {
+                "Succeeded".into()
+            } else {
+                "Succeeded(wrong-preimage)".into()
+            }
+        }
+        Some(Err(e)) => format!("ReadErr({e})"),
+        None => "ReadErr(async)".into(),
+    }
+}
+
+impl Session {
+    /// R08a/R08b on the node's own state (exact: the node is single-threaded)
+    pub fn check_state(&mut self, at: &str) {
+        for hx in self.hashes.clone() {
+            let (p, c, _) = self.node.live_parts(&hx);
+            let run = self.node.pay_running(&hx);
+            let rec = rec_of(&self.node, &hx);
+            if (p > 0 || c > 0 || run) && rec != "Pending" && rec != "Succeeded" {
+                self.node_violations.push((format!("R08a|e2e|rec={rec}|pending={}|complete={}|payrun={}", (p > 0) as u8, (c > 0) as u8, run as u8), format!("{at}: record for {hx} reads {rec} while pending={p} complete={c} pay_running={run}")));
+            }
+            if rec == "Succeeded(wrong-preimage)" {
+                self.node_violations.push(("R08b|e2e|succeeded-with-wrong-preimage".into(), format!("{at}: {hx}")));
+            }
+        }
+    }
+    /// R05 / R08c at pay arrival
+    pub fn check_pay_arrival(&mut self, params: &Value) {
+        let hx = invoice_hash_hex(params);
+        let (p, c, _) = self.node.live_parts(&hx);
+        if p > 0 || c > 0 || self.node.pay_running(&hx) {
+            self.node_violations.push((format!("R05|e2e|pay-while|pending={}|complete={}", (p > 0) as u8, (c > 0) as u8), format!("pay for {hx} arrived while pending={p} complete={c}")));
+        }
+        let rec = rec_of(&self.node, &hx);
+        if rec != "Pending" {
+            self.node_violations.push((format!("R08c|e2e|pay-with-rec={rec}"), format!("pay for {hx} arrived while the record reads {rec}")));
+        }
     }
 }
 
